@@ -398,7 +398,9 @@ class _FakeSocket:
         self._tx = bytearray()
         self._rx = bytearray()
         self._dead = False
-        self._timeout = None
+        # like a real socket, it starts with the process-wide default time-out
+        import socket as _real
+        self._timeout = _real.getdefaulttimeout()
         self._rx_delay = 0.0      # virtual seconds until the buffered answer "arrives"
 
     def connect(self, addr):
